@@ -77,9 +77,31 @@ class Node:
         self.wrote_at.add(t)
 
     # ---- mutation -------------------------------------------------------------------------------
+    def _wipe(self):
+        """Cascade of an explicit invalidation: this endpoint and everything below it holds no value any more."""
+        self.lmt = NEVER
+        self.inval = True
+        if self.kind == "ts":
+            self.val = None
+        elif self.kind == "tsd":
+            for c in self.children.values():
+                c._wipe()
+        elif self.kind in ("tsl", "tsb"):
+            for c in self.children:
+                c._wipe()
+
     def apply(self, op, t):
         """Apply one op; returns True when the op wrote this endpoint (ticked it)."""
         k = self.kind
+        if op == "I" and k in ("tsl", "tsb", "tsd"):
+            # explicit invalidation of the whole endpoint: it ticks once (consumers are told), reads invalid from then on, its
+            # children read invalid with no modification time; dictionary keys stay
+            if k == "tsd":
+                self._roll(t)
+            self._wipe()
+            self.touch(t)
+            return True
+        self.inval = False
         if k == "ts":
             if op[0] == "=":
                 self.val = int(op[1:])
@@ -195,7 +217,7 @@ class Node:
         if k == "ts":
             return self.val is not None
         if k in ("tss", "tsd"):
-            return self.lmt != NEVER
+            return self.lmt != NEVER and not getattr(self, "inval", False)
         if k == "tsw":
             return self.ever
         return any(c.valid() for c in self.children)
